@@ -1,6 +1,7 @@
 from reverse_dfs import reverse_dfs
 import logging
 import math
+import os
 
 PLAYER_1 = "Player 1"
 PLAYER_2 = "Player 2"
@@ -10,6 +11,18 @@ PROBABILITY = 0
 NEXT_STATE_IDX = 1
 
 # TODO: fallan los tests, pq agregué output nuevos, solo tengo que agregar lo nuevo
+
+# Verification hooks (off unless CONDREWARDS_VERIF=1 and a sink is installed):
+# report the solver's intermediate state at the two points of solve() that the
+# public return value does not expose.
+VERIF_ON = os.environ.get("CONDREWARDS_VERIF") == "1"
+VERIF_SINK = None
+
+
+def _verif_emit(event, **fields):
+    if VERIF_ON and VERIF_SINK is not None:
+        VERIF_SINK(event, fields)
+
 
 class StochasticGame:
     """
@@ -120,6 +133,8 @@ class StochasticGame:
             self.transition_list, self.final_states, self.prune_states)
         probabilities = [state.reach_probability for state in state_list]
         logging.debug(f"Reachability strategies: {reachability_strategies}")
+        _verif_emit("ReachDone", state_list=state_list,
+                    reachability_strategies=reachability_strategies)
 
         logging.info("Keeping the best player 1 strategies for reachability ...")
         solver.prune_reachability(reachability_strategies)
@@ -130,6 +145,7 @@ class StochasticGame:
         else:
             logging.info("Not prunning states.")
 
+        _verif_emit("Conditioned", state_list=state_list)
         logging.info("Solving total rewards ...")
         final_strategies, n_iterations_rew = solver.solve_total_rewards()
         rewards = [state.expected_rewards for state in state_list]
